@@ -133,8 +133,18 @@ def publish_rules(ctx):
     emp = decisions(b, lambda fc: fc[0] == 'pred' and fc[1].endswith('Vec::is_empty') and fc[3] is True and any(call_is(m, 'Vec::push') for m in _muts(fc[2][0])))
     begin = find_events(b, 'StorageManager::begin_transaction')
     okd = bool(dup and begin) and edge_dominates(b, (dup[0]['block'], dup[0]['pass'][0][1]), begin[0][0]['pos'][0])
+    if okd:
+        # the set must be keyed by the label alone (not by the (label, value) entry)
+        keyed = False
+        for fc in failconds(b, dup[0]):
+            for y in fc[2:4]:
+                for c in calls_in(y, 'HashSet::len'):
+                    for col in calls_in(arg(c, 0), 'Iterator::collect'):
+                        rty = b.blocks[col[4]]['t'].get('rty', '')
+                        keyed = keyed or (rty.replace(' ', '').startswith(('std::collections::HashSet<akd_core::AkdLabel', 'std::collections::HashSet<akd_core::types::AkdLabel', 'std::collections::HashSet<&akd_core::AkdLabel')))
+        okd = keyed
     ctx.ob('C01.P.duplicates', 'RF-ORDER', okd, b.path, '%s:%s' % (b.file, dup[0]['line'] if dup else b.line),
-           'a batch that repeats a label is rejected before any storage effect' if okd else 'no duplicate-label guard dominates the transaction')
+           'a batch that repeats a label (compared by label alone) is rejected before any storage effect' if okd else 'no guard comparing the number of distinct LABELS with the batch size dominates the transaction')
     oke = bool(emp and begin) and emp[0]['false'] is not None and edge_dominates(b, (emp[0]['block'], emp[0]['false']), begin[0][0]['pos'][0])
     if oke:
         # the no-op branch reaches no write-capable call
